@@ -33,14 +33,14 @@ def run(tier):
                 "exact reference minimiser over a catalogue of configurations; the backend is interpreted on representative "
                 "clouds with symbolic states: delta-v terms, labels, indices and order are compared with the reference.",
                 trusted_base=["python ast", "hv.kpe", "exact rational reference minimiser (candidate enumeration)"])
-    _a_radius(chk)
-    _e_closest(chk, tier)
-    _e_refine(chk)
-    _bcd_backend(chk)
     # requests / section data that are cached must be keyed by the options (radius, limits) they were built with
     from .. import memo
     memo.check_modules(chk, "C19.c-memo", ["hiten.algorithms.connections.backends", "hiten.algorithms.connections.interfaces", "hiten.algorithms.connections.engine",
                                            "hiten.algorithms.connections.base"], floor=0)
+    _a_radius(chk)
+    _e_closest(chk, tier)
+    _e_refine(chk)
+    _bcd_backend(chk)
     return chk
 
 
